@@ -14,16 +14,17 @@ def chk_history(inp):
     cases = [(aotools.PhaseScreenVonKarman, 8, {"n_columns": 2}), (aotools.PhaseScreenVonKarman, 13, {"n_columns": 3}), (aotools.PhaseScreenKolmogorov, 8, {"stencil_length_factor": 2}),
              (aotools.PhaseScreenKolmogorov, 12, {"stencil_length_factor": 2}), (aotools.PhaseScreenKolmogorov, 6, {"stencil_length_factor": 3})]
     # (class, size, keywords[, (pixel_scale, r0, L0)]): the last entries are fine-sampling / large-outer-scale screens whose innovation
-    # covariance is numerically indefinite (float32 separations) but which construct and run fine
-    cases += [(aotools.PhaseScreenKolmogorov, 16, {}, (0.05, 0.2, 1000.)), (aotools.PhaseScreenKolmogorov, 8, {}, (0.002, 0.2, 50.)), (aotools.PhaseScreenKolmogorov, 16, {}, (0.05, 0.1, 1000.))]
+    # covariance is numerically indefinite / whose covariance matrix is badly conditioned but which must build and run
+    cases += [(aotools.PhaseScreenKolmogorov, 16, {}, (0.05, 0.2, 1000.)), (aotools.PhaseScreenKolmogorov, 8, {}, (0.002, 0.2, 50.)), (aotools.PhaseScreenKolmogorov, 16, {}, (0.05, 0.1, 1000.)),
+              (aotools.PhaseScreenVonKarman, 8, {"n_columns": 2}, (0.5, 0.2, 1e5)), (aotools.PhaseScreenVonKarman, 8, {"n_columns": 2}, (0.5, 0.2, 1e6)), (aotools.PhaseScreenVonKarman, 8, {"n_columns": 2}, (0.5, 0.2, 1e8))]
     for case in cases:
         cls, n, kw = case[:3]
         pix, r0_, L0_ = case[3] if len(case) > 3 else (0.1, 0.2, 20.)
         try:
             a = cls(n, pix, r0_, L0_, random_seed=11, **kw)
             twin = cls(n, pix, r0_, L0_, random_seed=11, **kw)         # never read / printed: same stream must give the same rows
-        except numpy.linalg.LinAlgError:
-            continue               # refused at construction (documented): no screen, nothing to check
+        except (numpy.linalg.LinAlgError, ValueError) as ex:
+            return bad("%s(%d, pixel_scale=%g, r0=%g, L0=%g) cannot be built: %s" % (cls.__name__, n, pix, r0_, L0_, str(ex)[:80]), type(ex).__name__, "a screen")
         if len(case) > 3:
             steps_here = min(steps, 60)
         else:
